@@ -33,23 +33,31 @@ fn vec_for(id: u32, version: u32) -> Vec<u32> {
     vec![a.to_bits(), (if a == 0.0 && b == 0.0 { 1.0 } else { b }).to_bits()]
 }
 
-/// The model after each committed version (index 0 = before the first commit).
+/// The model after each committed version (index 0 = before the first commit) and whether
+/// that version is built. Version 1 is committed *unbuilt* (items only); the writer then
+/// builds and aborts, and builds again and commits (version 2) without touching an item.
 fn models() -> Vec<BTreeMap<u32, Vec<u32>>> {
     let mut out = vec![BTreeMap::new()];
     let mut m = BTreeMap::new();
     for id in 0..6u32 {
         m.insert(id, vec_for(id, 1));
     }
-    out.push(m.clone()); // v1
+    out.push(m.clone()); // v1: items, not built
+    out.push(m.clone()); // v2: the same items, built
     m.remove(&1);
+    out.push(m.clone()); // v3: one deletion only (buckets rewritten in place under the same node ids)
     m.insert(2, vec_for(2, 2));
     m.insert(7, vec_for(7, 2));
-    out.push(m.clone()); // v2
-    // t3 (aborted): add 8 ; t4 (cancelled, aborted): add 9
+    out.push(m.clone()); // v4
+    // (aborted): add 8 ; (cancelled, aborted): add 9
     m.insert(10, vec_for(10, 3));
     m.remove(&3);
-    out.push(m); // v3
+    out.push(m); // v5
     out
+}
+
+fn is_built(version: usize) -> bool {
+    version >= 2
 }
 
 struct Env2 {
@@ -96,15 +104,13 @@ fn writer_script(env: &crate::common::Env, db: RawDb, y: &(dyn Fn(&'static str) 
     };
     let e = |x: arroy::Error| x.to_string();
     let he = |x: heed::Error| x.to_string();
-    // v1
+    // v1: items committed without a build
     y("begin");
     let mut wtxn = env.write_txn().map_err(he)?;
     for id in 0..6u32 {
         y("add");
         writer.add_item(&mut wtxn, id, &floats_of(&vec_for(id, 1))).map_err(e)?;
     }
-    y("build");
-    build(&mut wtxn, 2, 11, None).map_err(e)?;
     y("commit");
     wtxn.commit().map_err(he)?;
     commits.fetch_add(1, Ordering::SeqCst);
@@ -113,17 +119,51 @@ fn writer_script(env: &crate::common::Env, db: RawDb, y: &(dyn Fn(&'static str) 
         let r = env.read_txn().map_err(he)?;
         dumps.push(dump(db, &r));
     }
-    // v2
+    // a successful build that is aborted, with the same Writer ...
+    y("begin");
+    let mut wtxn = env.write_txn().map_err(he)?;
+    y("build");
+    build(&mut wtxn, 1, 11, None).map_err(e)?;
+    y("abort");
+    wtxn.abort();
+    y("aborted");
+    // ... then the same build again, committed (v2), without any item operation in between
+    y("begin");
+    let mut wtxn = env.write_txn().map_err(he)?;
+    y("build");
+    build(&mut wtxn, 1, 11, None).map_err(e)?;
+    y("commit");
+    wtxn.commit().map_err(he)?;
+    commits.fetch_add(1, Ordering::SeqCst);
+    y("committed");
+    {
+        let r = env.read_txn().map_err(he)?;
+        dumps.push(dump(db, &r));
+    }
+    // v3: a single deletion
     y("begin");
     let mut wtxn = env.write_txn().map_err(he)?;
     y("del");
     writer.del_item(&mut wtxn, 1).map_err(e)?;
+    y("build");
+    build(&mut wtxn, 1, 16, None).map_err(e)?;
+    y("commit");
+    wtxn.commit().map_err(he)?;
+    commits.fetch_add(1, Ordering::SeqCst);
+    y("committed");
+    {
+        let r = env.read_txn().map_err(he)?;
+        dumps.push(dump(db, &r));
+    }
+    // v4
+    y("begin");
+    let mut wtxn = env.write_txn().map_err(he)?;
     y("add");
     writer.add_item(&mut wtxn, 2, &floats_of(&vec_for(2, 2))).map_err(e)?;
     y("add");
     writer.add_item(&mut wtxn, 7, &floats_of(&vec_for(7, 2))).map_err(e)?;
     y("build");
-    build(&mut wtxn, 2, 12, None).map_err(e)?;
+    build(&mut wtxn, 1, 12, None).map_err(e)?;
     y("commit");
     wtxn.commit().map_err(he)?;
     commits.fetch_add(1, Ordering::SeqCst);
@@ -159,7 +199,7 @@ fn writer_script(env: &crate::common::Env, db: RawDb, y: &(dyn Fn(&'static str) 
     y("abort");
     wtxn.abort();
     y("aborted");
-    // v3
+    // v5
     y("begin");
     let mut wtxn = env.write_txn().map_err(he)?;
     y("add");
@@ -195,37 +235,50 @@ fn observe(db: RawDb, rtxn: &RoTxn, c: usize, refs: &[Kv], models: &[BTreeMap<u3
     let model = &models[c];
     let r = catch(|| -> Result<(), (String, String)> {
         let open = arroy::Reader::<D>::open(rtxn, 0, arroy_db::<D>(db));
-        if c == 0 {
+        if !is_built(c) {
             return match open {
                 Err(arroy::Error::MissingMetadata(_)) => Ok(()),
-                other => Err(("A/open-before-first-commit".into(), format!("open before any commit = {:?}", other.map(|_| "Ok").map_err(|e| ErrKind::of(&e).tag())))),
+                other => Err(("A/open-unbuilt-version".into(), format!("open of version {c} (never built) = {:?}", other.map(|_| "Ok").map_err(|e| ErrKind::of(&e).tag())))),
             };
         }
         let reader = open.map_err(|e| ("A/open-failed".to_string(), format!("version {c} does not open: {e}")))?;
-        let ids: Vec<u32> = reader.item_ids().iter().collect();
-        if ids != model.keys().copied().collect::<Vec<_>>() {
-            return Err(("A/items".into(), format!("version {c}: Reader::item_ids = {ids:?}, committed model {:?}", model.keys().collect::<Vec<_>>())));
-        }
-        for (id, v) in model {
-            let got = reader.item_vector(rtxn, *id).map_err(|e| ("A/api".to_string(), e.to_string()))?;
-            if got.map(|x| crate::common::bits_of(&x)).as_ref() != Some(v) {
-                return Err(("A/vector".into(), format!("version {c}: item_vector({id}) is not the committed one")));
-            }
-        }
-        let n = model.len();
-        for q in [vec_for(0, 1), vec_for(7, 2), vec_for(10, 3)] {
-            let res = crate::hist::query::<D>(&reader, rtxn, None, Some(&floats_of(&q)), n, Some(usize::MAX), None, None)
-                .map_err(|e| ("A/query-failed".to_string(), e))?
-                .unwrap();
-            check_result(METRIC, DIM, model, &q, n, None, &res, Exactness::Exact, true).map_err(|(c2, m)| (format!("A/search:{c2}"), format!("version {c}: {m}")))?;
-        }
-        Ok(())
+        api_view(&reader, rtxn, c, model)
     });
     match r {
         Ok(Ok(())) => Ok(got),
         Ok(Err(e)) => Err(e),
         Err(p) => Err((format!("A/reader-panicked:{}", p.site()), format!("{}: {}", p.location, p.message))),
     }
+}
+
+/// What the public API must show through `reader` on a snapshot of built version `c`.
+fn api_view(reader: &arroy::Reader<D>, rtxn: &RoTxn, c: usize, model: &BTreeMap<u32, Vec<u32>>) -> Result<(), (String, String)> {
+    let ids: Vec<u32> = reader.item_ids().iter().collect();
+    if ids != model.keys().copied().collect::<Vec<_>>() {
+        return Err(("A/items".into(), format!("version {c}: Reader::item_ids = {ids:?}, committed model {:?}", model.keys().collect::<Vec<_>>())));
+    }
+    for (id, v) in model {
+        let got = reader.item_vector(rtxn, *id).map_err(|e| ("A/api".to_string(), e.to_string()))?;
+        if got.map(|x| crate::common::bits_of(&x)).as_ref() != Some(v) {
+            return Err(("A/vector".into(), format!("version {c}: item_vector({id}) is not the committed one")));
+        }
+    }
+    let n = model.len();
+    for q in [vec_for(0, 1), vec_for(7, 2), vec_for(10, 3)] {
+        let res = crate::hist::query::<D>(reader, rtxn, None, Some(&floats_of(&q)), n, Some(usize::MAX), None, None)
+            .map_err(|e| ("A/query-failed".to_string(), e))?
+            .unwrap();
+        if std::env::var("VERIF_DEBUG_C08").is_ok() {
+            eprintln!("api_view version {c}: exact query -> {:?}", res.iter().map(|x| x.0).collect::<Vec<_>>());
+        }
+        check_result(METRIC, DIM, model, &q, n, None, &res, Exactness::Exact, true).map_err(|(c2, m)| (format!("A/search:{c2}"), format!("version {c}: {m}")))?;
+        // a small budget too: it walks the tree nodes of this snapshot only
+        let res = crate::hist::query::<D>(reader, rtxn, None, Some(&floats_of(&q)), n, Some(2), None, None)
+            .map_err(|e| ("A/query-failed".to_string(), e))?
+            .unwrap();
+        check_result(METRIC, DIM, model, &q, n, None, &res, Exactness::WellFormed, true).map_err(|(c2, m)| (format!("A/search:{c2}"), format!("version {c}, budget 2: {m}")))?;
+    }
+    Ok(())
 }
 
 #[derive(Clone, Copy, PartialEq, Debug)]
@@ -402,6 +455,149 @@ fn run_schedule(opens: &[usize], refs: &[Kv], models: &[BTreeMap<u32, Vec<u32>>]
     Ok(Exec { yield_points, observations: observations.load(Ordering::Relaxed) })
 }
 
+/// One reader thread that holds TWO snapshots and their `Reader` objects at the same time:
+/// it opens the first when the writer is at yield point `a`, the second at `b >= a`, and from
+/// then on queries the newer one and then the older one at every writer yield point. Anything
+/// the crate keeps outside the transaction (per thread or per process) and refreshes at open
+/// time is exposed when the older `Reader` is used after the newer one.
+fn run_two_snapshots(a: usize, b: usize, refs: &[Kv], models: &[BTreeMap<u32, Vec<u32>>]) -> Result<Exec, Violation> {
+    let e2 = Env2::new();
+    let sched = Sched::new(2);
+    let commits = AtomicUsize::new(0);
+    let failure: Mutex<Option<(String, String)>> = Mutex::new(None);
+    let observations = AtomicU64::new(0);
+    let mut yield_points = 0usize;
+    let go: Mutex<Cmd> = Mutex::new(Cmd::Quit);
+    std::thread::scope(|scope| {
+        {
+            let sched = sched.clone();
+            let env = e2.env.clone();
+            let db = e2.db;
+            let commits = &commits;
+            scope.spawn(move || {
+                let s2 = sched.clone();
+                let y = move |label: &'static str| s2.yield_point(WRITER, label, 0);
+                let _ = crate::explore::in_single_thread_pool(|| catch(|| writer_script(&env, db, &y, commits)));
+                sched.finish(WRITER);
+            });
+        }
+        {
+            let sched = sched.clone();
+            let env = e2.env.clone();
+            let db = e2.db;
+            let commits = &commits;
+            let failure = &failure;
+            let observations = &observations;
+            let go = &go;
+            scope.spawn(move || {
+                let fail = |c: String, m: String| {
+                    let mut f = failure.lock().unwrap();
+                    if f.is_none() {
+                        *f = Some((c, m));
+                    }
+                };
+                // wait for "open the first snapshot"
+                sched.yield_point(1, "reader-idle", 0);
+                if *go.lock().unwrap() == Cmd::Quit {
+                    sched.finish(1);
+                    return;
+                }
+                let t1 = env.read_txn().expect("read txn");
+                let v1 = commits.load(Ordering::SeqCst);
+                let r1 = arroy::Reader::<D>::open(&t1, 0, arroy_db::<D>(db)).ok();
+                let check = |label: &str, reader: &Option<arroy::Reader<D>>, t: &heed::RoTxn<heed::WithoutTls>, v: usize| {
+                    observations.fetch_add(1, Ordering::Relaxed);
+                    if std::env::var("VERIF_DEBUG_C08").is_ok() {
+                        eprintln!("two-snapshots a={a} b={b}: {label} version {v} reader={}", reader.is_some());
+                    }
+                    if dump(db, t) != refs[v] {
+                        fail("A/held:not-the-committed-version".into(), format!("{label} snapshot of version {v}: the raw content changed while it was held"));
+                    }
+                    match (reader, is_built(v)) {
+                        (Some(r), true) => {
+                            let res = catch(|| api_view(r, t, v, &models[v]));
+                            match res {
+                                Ok(Ok(())) => {}
+                                Ok(Err((c, m))) => fail(c.replace("A/", "A/two-snapshots:"), format!("{label} Reader (version {v}) used after another snapshot was opened on the same thread: {m}")),
+                                Err(p) => fail(format!("A/two-snapshots:panicked:{}", p.site()), format!("{label} Reader (version {v}): panic at {}: {}", p.location, p.message)),
+                            }
+                        }
+                        (None, false) => {}
+                        (Some(_), false) => fail("A/open-unbuilt-version".into(), format!("version {v} is not built but opened")),
+                        (None, true) => fail("A/open-failed".into(), format!("version {v} did not open")),
+                    }
+                };
+                check("first", &r1, &t1, v1);
+                sched.yield_point(1, "reader-idle", 0);
+                if *go.lock().unwrap() == Cmd::Quit {
+                    sched.finish(1);
+                    return;
+                }
+                let t2 = env.read_txn().expect("read txn");
+                let v2 = commits.load(Ordering::SeqCst);
+                let r2 = arroy::Reader::<D>::open(&t2, 0, arroy_db::<D>(db)).ok();
+                loop {
+                    check("second", &r2, &t2, v2);
+                    check("first", &r1, &t1, v1);
+                    sched.yield_point(1, "reader-idle", 0);
+                    if *go.lock().unwrap() == Cmd::Quit {
+                        break;
+                    }
+                }
+                sched.finish(1);
+            });
+        }
+        let timeout = Duration::from_secs(60);
+        let mut ok = sched.quiesce(2, timeout).is_some();
+        let mut stage = 0; // 0 = nothing open, 1 = first open, 2 = both open
+        let step_reader = |cmd: Cmd| -> bool {
+            *go.lock().unwrap() = cmd;
+            sched.release(1);
+            sched.quiesce(2, timeout).is_some()
+        };
+        while ok {
+            let st = sched.statuses();
+            if stage == 0 && yield_points == a {
+                ok &= step_reader(Cmd::Open);
+                stage = 1;
+            }
+            if stage == 1 && yield_points == b {
+                ok &= step_reader(Cmd::Open);
+                stage = 2;
+            } else if stage == 2 {
+                ok &= step_reader(Cmd::Observe);
+            }
+            match &st[WRITER] {
+                Status::Blocked(..) => {
+                    yield_points += 1;
+                    sched.release(WRITER);
+                    ok &= sched.quiesce(2, timeout).is_some();
+                }
+                _ => break,
+            }
+            if failure.lock().unwrap().is_some() {
+                break;
+            }
+        }
+        *go.lock().unwrap() = Cmd::Quit;
+        sched.free_run();
+        if !ok {
+            let mut f = failure.lock().unwrap();
+            if f.is_none() {
+                *f = Some(("A/deadlock".into(), "no participant made progress for 60 s".into()));
+            }
+        }
+    });
+    if let Some((c, m)) = failure.into_inner().unwrap() {
+        return Err(Violation {
+            signature: c,
+            what: format!("one thread holding two snapshots opened at writer yield points {a} and {b}: {m}"),
+            replay: json!({"engine": "snapshot", "two_snapshots_on_one_thread": [a, b]}),
+        });
+    }
+    Ok(Exec { yield_points, observations: observations.load(Ordering::Relaxed) })
+}
+
 pub fn run(tier: Tier) -> i32 {
     use rayon::prelude::*;
     let mut report = Report::new("C08", tier, "model_checking");
@@ -431,7 +627,7 @@ pub fn run(tier: Tier) -> i32 {
     let mut refs: Vec<Kv> = vec![Vec::new()];
     refs.extend(refs_tail);
     // the committed versions themselves are valid indexes (S)
-    for (c, kv) in refs.iter().enumerate().skip(1) {
+    for (c, kv) in refs.iter().enumerate().skip(1).filter(|(c, _)| is_built(*c)) {
         let ok = decode_index(kv, 0, METRIC, DIM).map_err(|e| ("F/undecodable".to_string(), e)).and_then(|ix| {
             oracle::structure(&ix, &models[c].keys().copied().collect(), METRIC, DIM).map(|_| ())
         });
@@ -439,8 +635,21 @@ pub fn run(tier: Tier) -> i32 {
             report.add_violation(Violation::new(format!("A/committed-version-invalid:{cl}"), format!("committed version {c}: {m}")));
         }
     }
+    if std::env::var("VERIF_DEBUG_C08").is_ok() {
+        for (c, kv) in refs.iter().enumerate().skip(2) {
+            if let Ok(ix) = decode_index(kv, 0, METRIC, DIM) {
+                eprintln!("version {c}: roots {:?}", ix.meta.as_ref().map(|m| m.roots.clone()));
+                for (id, n) in &ix.trees {
+                    match n {
+                        crate::layout::TreeNode::Bucket(b) => eprintln!("   node {id}: bucket {:?}", b.iter().collect::<Vec<_>>()),
+                        crate::layout::TreeNode::Split { left, right, .. } => eprintln!("   node {id}: split {left:?} {right:?}"),
+                    }
+                }
+            }
+        }
+    }
     let after_abort = dump(e0.db, &e0.env.read_txn().unwrap());
-    if after_abort != refs[3] {
+    if after_abort != *refs.last().unwrap() {
         report.add_violation(Violation::new("A/abort-left-trace", "after the script the database is not the last committed version".to_string()));
     }
     drop(e0);
@@ -502,6 +711,39 @@ pub fn run(tier: Tier) -> i32 {
         }
     };
     pairs.par_iter().for_each(|(a, b)| run_one(&[*a, *b]));
+    // (2b) one thread holding two snapshots (and their Reader objects) at once
+    let step2 = if tier == Tier::Quick { (w / 16).max(1) } else { (w / 64).max(1) };
+    let mut grid2: Vec<usize> = (0..=w).step_by(step2).collect();
+    grid2.extend([w.saturating_sub(1), w]);
+    grid2.sort();
+    grid2.dedup();
+    let mut two: Vec<(usize, usize)> = Vec::new();
+    for a in &grid2 {
+        for b in &grid2 {
+            if a <= b {
+                two.push((*a, *b));
+            }
+        }
+    }
+    let two_done = AtomicU64::new(0);
+    two.par_iter().for_each(|(a, b)| {
+        if first.lock().unwrap().is_some() {
+            return;
+        }
+        match run_two_snapshots(*a, *b, &refs, &models) {
+            Ok(e) => {
+                two_done.fetch_add(1, Ordering::Relaxed);
+                executions.fetch_add(1, Ordering::Relaxed);
+                observations.fetch_add(e.observations, Ordering::Relaxed);
+            }
+            Err(v) => {
+                let mut f = first.lock().unwrap();
+                if f.is_none() {
+                    *f = Some(v);
+                }
+            }
+        }
+    });
     // (3) any number of readers: a new reader at every 4th yield point (every point in thorough), all held to the end
     let many: Vec<usize> = match tier {
         Tier::Quick => (0..=w).step_by(4).collect(),
@@ -518,11 +760,12 @@ pub fn run(tier: Tier) -> i32 {
     report.cov("schedules", ex);
     report.cov("schedules_one_reader", one_reader);
     report.cov("schedules_two_readers", pairs.len() as u64);
+    report.cov("schedules_two_snapshots_on_one_thread", two_done.load(Ordering::Relaxed));
     report.cov("many_readers_in_one_schedule", many.len() as u64);
     report.cov("reader_observations", observations.load(Ordering::Relaxed));
     report.cov("exhaustive", true);
     report.cov("oracle", "a reader opening when c commits have completed must see exactly committed version c: its raw dump through its own RoTxn equals byte for byte the reference dump of version c of the uninterrupted run (never a mixture), Reader::open fails with MissingMetadata for c = 0 and otherwise opens, item ids and vectors equal the committed model, exhaustive queries equal the brute-force model; a held snapshot never changes, whatever is written, built, committed or aborted meanwhile; after every abort a fresh snapshot equals the last committed version; the writer's committed versions do not depend on the readers");
-    report.cov("bounds", json!({"writer": "5 transactions: v1 populate+build+commit, v2 delete/overwrite/add+build+commit, build then abort, cancelled build then abort, v3 add/delete+build(3 trees)+commit", "reader placements": "every opening point for one reader; pairs of opening points for two readers (grid in quick, all pairs in thorough); one schedule with a new reader at every (4th) yield point"}));
+    report.cov("bounds", json!({"writer": "8 transactions on one Writer: v1 items committed unbuilt, build then abort, the same build committed (v2), v3 one deletion+build+commit, v4 overwrite/add+build+commit, build then abort, cancelled build then abort, v5 add/delete+build(3 trees)+commit", "reader placements": "every opening point for one reader; pairs of opening points for two readers (grid in quick, all pairs in thorough); pairs of opening points for one thread holding two snapshots and their Reader objects; one schedule with a new reader at every (4th) yield point"}));
     report.sample(json!({"schedule": "reader opens at writer yield point 57 (inside the first build), re-observes at every later point, reopens at the end", "expected": "MissingMetadata and an empty dump for as long as the snapshot is held; version 3 after reopening"}));
     report.finish()
 }
